@@ -4,6 +4,7 @@ from __future__ import annotations
 import importlib
 import json
 import os
+import re
 import sys
 import time
 import traceback
@@ -107,12 +108,15 @@ def load_known() -> list[dict]:
 
 
 def match_known(prop: str, o: Obligation, known: list[dict]) -> Optional[dict]:
-    prop = o.origin or prop
-    rule = o.rule.split('/', 1)[1] if o.origin and '/' in o.rule else o.rule
+    """A failed obligation is a known finding when the list holds an entry for the rule that PRODUCED it (the last segment of a relabelled rule id
+    `Cyy/Rn.m/Rk.l` names the rule as its owner numbers it, and its number names the owning property) with the same construct key."""
+    last = o.rule.rsplit('/', 1)[-1]
+    cands = {(o.origin or prop, o.rule.split('/', 1)[1] if o.origin and '/' in o.rule else o.rule)}
+    m = re.fullmatch(r'R(\d+)\.(\d+)', last)
+    if m:
+        cands.add((f'C{int(m.group(1)):02d}', last))
     for k in known:
-        if k.get('status') != 'known' or k.get('property') != prop:
-            continue
-        if k.get('rule') != rule:
+        if k.get('status') != 'known' or (k.get('property'), k.get('rule')) not in cands:
             continue
         if k.get('construct') and k['construct'] != o.construct:
             continue
